@@ -9,14 +9,15 @@ import sys
 import time
 
 ROOT = os.path.dirname(os.path.dirname(os.path.abspath(__file__)))
+OUT = os.environ.get("VERIF_OUT", ROOT)  # seed tools only: evidence / replays of a run against a scratch worktree go elsewhere
 
 LEVELS = {}  # property -> level reported in evidence (proof unless overridden in props.py)
 
 
 def write_replay(prop, rec):
-    os.makedirs(os.path.join(ROOT, "replays"), exist_ok=True)
+    os.makedirs(os.path.join(OUT, "replays"), exist_ok=True)
     h = hashlib.sha1(json.dumps([rec["obligation"], rec["failure"].get("inputs")], sort_keys=True, default=str).encode()).hexdigest()[:10]
-    path = os.path.join(ROOT, "replays", "%s-%s.json" % (prop, h))
+    path = os.path.join(OUT, "replays", "%s-%s.json" % (prop, h))
     f = rec["failure"]
     doc = {
         "property": prop,
@@ -184,8 +185,8 @@ def report(prop, res, args, extra):
         "undecided": [u.get("obligation") or u["contract"] for u in res["undecided"]],
         "exit_code": code,
     }
-    os.makedirs(os.path.join(ROOT, "evidence"), exist_ok=True)
-    with open(os.path.join(ROOT, "evidence", "%s.json" % prop), "w") as fh:
+    os.makedirs(os.path.join(OUT, "evidence"), exist_ok=True)
+    with open(os.path.join(OUT, "evidence", "%s.json" % prop), "w") as fh:
         json.dump(evidence, fh, indent=1, default=str)
     if args.verbose:
         for w, ss, np_, cid in res.get("timing", []):
